@@ -165,6 +165,8 @@ func runPrime(d Desc, cw *hlib.CaseWriter) {
 	for _, e := range h.etxs {
 		idOfHash[e.tx.Hash()] = e.id
 	}
+	guard := newAliasGuard("prime", h.etxs, fail)
+	defer guard.final(h.etxs)
 	txsOf := func(z *rZone) types.Transactions {
 		l := types.Transactions{}
 		for _, e := range z.etxs {
@@ -172,13 +174,22 @@ func runPrime(d Desc, cw *hlib.CaseWriter) {
 		}
 		return l
 	}
+	forgeRng := hlib.NewRng(d.Sub ^ 0xf0e1d2).Fork() // its own stream: the generated history does not depend on it
 	register := func(z *rZone, wo *types.WorkObject) bool {
 		pr := types.PendingEtxsRollup{Header: wo.ConvertToPEtxView(), EtxsRollup: txsOf(z)}
 		z.hash, z.hdr = pr.Header.Hash(), wo
+		// alias.go: in a share of the rollups a forged one for the same header arrives first
+		genuine := txsOf(z)
+		stored := func() (bool, bool, types.Transactions) { return node.StoredPending(z.hash, wo.Location()) }
+		forged := forgedFirst("prime", forgeRng, 30, genuine, h.etxs, func(l types.Transactions) error {
+			return node.AddPendingEtxsRollup(types.PendingEtxsRollup{Header: wo.ConvertToPEtxView(), EtxsRollup: l})
+		}, stored, fail)
 		if z.missing {
 			return true
 		}
-		if err := node.AddPendingEtxsRollup(pr); err != nil {
+		err := node.AddPendingEtxsRollup(pr)
+		afterGenuine("prime", forged, genuine, err, stored, fail)
+		if err != nil {
 			fail("route-prime:setup", "AddPendingEtxsRollup refused a well formed rollup: "+err.Error())
 			return false
 		}
@@ -253,7 +264,7 @@ func runPrime(d Desc, cw *hlib.CaseWriter) {
 	var rc *recCtx
 	var recAns map[*rBlock][]types.Transactions
 	if isRecover(d.Shape) {
-		rc = &recCtx{level: "prime", ctxN: common.PRIME_CTX, node: node, h: h, d: d, idOfHash: idOfHash, fail: fail, cw: cw}
+		rc = &recCtx{level: "prime", ctxN: common.PRIME_CTX, node: node, h: h, d: d, idOfHash: idOfHash, fail: fail, cw: cw, guard: guard}
 		recAns = recoverPhase(rc)
 	}
 	r := hlib.NewRng(d.Sub ^ 0x9e37).Fork()
@@ -261,6 +272,7 @@ func runPrime(d Desc, cw *hlib.CaseWriter) {
 	handed := map[*rBlock]rObs{}
 	for _, b := range h.blocks {
 		roll, err := node.CollectSubRollup(b.wo)
+		guard.use(roll, fmt.Sprintf("CollectSubRollup of prime block %d", b.id))
 		var want types.Transactions
 		complete := true
 		for _, z := range b.manifest {
@@ -284,6 +296,7 @@ func runPrime(d Desc, cw *hlib.CaseWriter) {
 			}
 		}
 		l, err := node.CollectNewlyConfirmedEtxs(b.wo, b.order)
+		guard.use(l, fmt.Sprintf("CollectNewlyConfirmedEtxs of prime block %d", b.id))
 		o := rObs{classifyCollectErr(err), l}
 		ncQ = append(ncQ, fmt.Sprintf("(%d,%d,%d,%s)", b.id, b.order, o.class, idsOf(o.list)))
 		l2, err2 := node.CollectNewlyConfirmedEtxs(b.wo, b.order)
@@ -291,6 +304,8 @@ func runPrime(d Desc, cw *hlib.CaseWriter) {
 			node.PurgeSubRollupCache()
 		}
 		l3, err3 := node.CollectNewlyConfirmedEtxs(b.wo, b.order)
+		guard.check(l2, fmt.Sprintf("the second CollectNewlyConfirmedEtxs of prime block %d (an Append retried after the first attempt used the set)", b.id))
+		guard.check(l3, fmt.Sprintf("the third CollectNewlyConfirmedEtxs of prime block %d", b.id))
 		if classifyCollectErr(err2) != o.class || classifyCollectErr(err3) != o.class || !sameHashes(l, l2) || !sameHashes(l, l3) {
 			fail("route-prime:not-deterministic", "CollectNewlyConfirmedEtxs gives different answers for the same prime block (memo of sub rollups)")
 		}
